@@ -72,7 +72,7 @@ def without_generated_ids(written, given):
     return w
 
 
-def write_fs(root, d, legacy=False):
+def write_fs(root, d, legacy=False, bundlified=False):
     """Lay d out the way FileSystemSink would (type/id/modified.json or type/id.json).  legacy=True: the older flat layout
     type/id.json for a versioned object, next to another object of the same type in the versioned layout (both are documented
     as readable)."""
@@ -92,7 +92,13 @@ def write_fs(root, d, legacy=False):
         os.makedirs(tdir, exist_ok=True)
         path = os.path.join(tdir, d["id"] + ".json")
     with open(path, "w", encoding="utf-8") as f:
-        json.dump(d, f)
+        if bundlified:
+            wrapper = {"type": "bundle", "id": "bundle--d83fce45-ef58-4c6c-a3f4-1fbc32e98c6e", "objects": [d]}
+            if "spec_version" not in d:
+                wrapper["spec_version"] = "2.0"      # what a 2.0 bundle written by the sink carries
+            json.dump(wrapper, f)
+        else:
+            json.dump(d, f)
     return path
 
 
@@ -197,6 +203,26 @@ def entry_points(d, v, tmp):
             written = json.load(f)
         return ("written", written)
 
+    def fs_sink_add_bundle_text():
+        root = fs_dir()
+        stix2.FileSystemSink(root, allow_custom=True).add(json.dumps(dict(BUN, objects=[dict(d)])), version=v)
+        files = [os.path.join(dp, f) for dp, _, fs in os.walk(root) for f in fs]
+        with open(files[0], encoding="utf-8") as f:
+            written = json.load(f)
+        return ("written", written)
+
+    def fs_bundlified_get():
+        # a file as FileSystemSink(bundlify=True) writes it: the object wrapped in a bundle
+        root = fs_dir()
+        write_fs(root, d, bundlified=True)
+        return stix2.FileSystemSource(root).get(sid, version=v)
+
+    def fs_bundlified_query():
+        root = fs_dir()
+        write_fs(root, d, bundlified=True)
+        r = stix2.FileSystemSource(root).query([Filter("id", "=", sid)], version=v)
+        return r[0] if r else None
+
     def fs_store_add_get():
         root = fs_dir()
         st = stix2.FileSystemStore(root, allow_custom=True)
@@ -243,7 +269,10 @@ def entry_points(d, v, tmp):
         # a bundle given as a dictionary is a list of objects to the sinks (the memory sink documents it so): the named
         # version is for them
         eps += [("MemoryStore.add(bundle dict, version)", mem_store_add_bundle_dict, "class"),
-                ("FileSystemSink.add(bundle dict, version)", fs_sink_add_bundle_dict, "written")]
+                ("FileSystemSink.add(bundle dict, version)", fs_sink_add_bundle_dict, "written"),
+                ("FileSystemSink.add(bundle JSON text, version)", fs_sink_add_bundle_text, "written"),
+                ("FileSystemSource.get(id, version) [bundlified file]", fs_bundlified_get, "class"),
+                ("FileSystemSource.query(id, version) [bundlified file]", fs_bundlified_query, "class")]
         if v is not None and "spec_version" not in d:
             # the wrapper's own spec_version property does not outrank the version the caller names
             eps += [("MemoryStore.add(bundle dict with spec_version, version)", mem_store_add_bundle20_dict, "class"),
@@ -293,6 +322,18 @@ def wl_dicts(ctx, rng, i):
             # history: the same content (and so the same identifier text) was first read under the more lenient version
             outcome(lambda: stix2.parse(dict(d), allow_custom=True, version="2.1"))
             outcome(lambda: stix2.v21.Identity(name="p", created_by_ref="identity--" + d["id"].split("--", 1)[1]))
+            # a version value the library does not know is refused -- it must not silently switch validation off
+            for bogus in ("21", "2.2", "v21", 2.1, "2.10"):
+                for lab, fn in (("parse", lambda: stix2.parse(dict(d), allow_custom=True, version=bogus)),
+                                ("MemoryStore.add", lambda: stix2.MemoryStore().add(dict(d), version=bogus)),
+                                ("parse_observable", lambda: stix2.parse_observable(dict(d), [], allow_custom=True, version=bogus))):
+                    if idkind != "valid-id" and lab != "parse":
+                        continue
+                    r = outcome(fn)
+                    ctx.ev()
+                    ctx.count("unsupported_version_probes")
+                    if r != "refused":
+                        ctx.violation("unsupported-version-accepted", "%s with version=%r did not refuse (%s)" % (lab, bogus, r), {"input": d, "version": repr(bogus), "entry_point": lab})
             for v in VERSIONS:
                 ref = outcome(lambda: stix2.parse(dict(d), allow_custom=True, version=v))
                 if idkind == "version-1-uuid" and v == "2.0" and ref != "refused":
